@@ -153,13 +153,39 @@ func ruleC10JSONVersion(c *Ctx) {
 		v2
 		other
 	)
+	// the switch that the report is produced under (--json) is tracked
+	// together with the version: the validation and the report are both
+	// guarded by it, in two different places. A state is a set of pairs
+	// (switch, version): bit (3*j + k) for switch value j and version class k.
+	var jsonCell *ssa.Alloc
+	for _, r := range c.flagRegs() {
+		if r.Name == "json" {
+			for _, k := range c.cellsOfFlagValue(r.ValueArg, 0) {
+				if a, isAlloc := k.(*ssa.Alloc); isAlloc {
+					jsonCell = a
+				}
+			}
+		}
+	}
+	const top = 1<<6 - 1
+	proj := func(st int) int { return (st | st>>3) & 7 }
 	isLoad := func(v ssa.Value) bool {
 		u, ok := v.(*ssa.UnOp)
 		return ok && u.Op == token.MUL && u.X == ssa.Value(al)
 	}
-	// filter: the abstract values that can take the edge on which cond has truth value t
+	isJSONLoad := func(v ssa.Value) bool {
+		u, ok := v.(*ssa.UnOp)
+		return ok && jsonCell != nil && u.Op == token.MUL && u.X == ssa.Value(jsonCell)
+	}
+	// filter: the states that can take the edge on which cond has truth value t
 	filter := func(cond ssa.Value, t bool, in int) int {
 		cond, t = normCond(cond, t)
+		if isJSONLoad(cond) {
+			if t {
+				return in & (7 << 3)
+			}
+			return in & 7
+		}
 		cmp, ok := cond.(*ssa.BinOp)
 		if !ok || !isLoad(cmp.X) {
 			return in
@@ -185,22 +211,20 @@ func ruleC10JSONVersion(c *Ctx) {
 			}
 			return true
 		}
-		out := 0
-		if in&v1 != 0 && holds(1) == t {
-			out |= v1
+		keep := 0
+		if holds(1) == t {
+			keep |= v1
 		}
-		if in&v2 != 0 && holds(2) == t {
-			out |= v2
+		if holds(2) == t {
+			keep |= v2
 		}
-		if in&other != 0 {
-			// some other number: only an equality with 1 or 2 excludes it
-			if !(cmp.Op == token.EQL && t && (k == 1 || k == 2)) && !(cmp.Op == token.NEQ && !t && (k == 1 || k == 2)) {
-				out |= other
-			}
+		// some other number: only an equality with 1 or 2 excludes it
+		if !(cmp.Op == token.EQL && t && (k == 1 || k == 2)) && !(cmp.Op == token.NEQ && !t && (k == 1 || k == 2)) {
+			keep |= other
 		}
-		return out
+		return in & (keep | keep<<3)
 	}
-	in := map[*ssa.BasicBlock]int{mainImpl.Blocks[0]: v1 | v2 | other}
+	in := map[*ssa.BasicBlock]int{mainImpl.Blocks[0]: top}
 	for iter := 0; iter < 50; iter++ {
 		changed := false
 		for _, b := range mainImpl.Blocks {
@@ -210,7 +234,19 @@ func ruleC10JSONVersion(c *Ctx) {
 			}
 			for _, ins := range b.Instrs {
 				if s, isStore := ins.(*ssa.Store); isStore && s.Addr == ssa.Value(al) {
-					st = v1 | v2 | other
+					// any version, with the switch as it was
+					j := 0
+					if st&7 != 0 {
+						j |= 7
+					}
+					if st&(7<<3) != 0 {
+						j |= 7 << 3
+					}
+					st = j
+				}
+				if s, isStore := ins.(*ssa.Store); isStore && jsonCell != nil && s.Addr == ssa.Value(jsonCell) {
+					p := proj(st)
+					st = p | p<<3
 				}
 			}
 			for i, succ := range b.Succs {
@@ -218,11 +254,8 @@ func ruleC10JSONVersion(c *Ctx) {
 				if iff, isIf := b.Instrs[len(b.Instrs)-1].(*ssa.If); isIf && b.Succs[0] != b.Succs[1] {
 					out = filter(iff.Cond, i == 0, st)
 				}
-				if in[succ]|out != in[succ] {
-					in[succ] |= out
-					changed = true
-				} else if _, seen := in[succ]; !seen {
-					in[succ] = out
+				if old, seen := in[succ]; !seen || old|out != old {
+					in[succ] = old | out
 					changed = true
 				}
 			}
@@ -230,6 +263,9 @@ func ruleC10JSONVersion(c *Ctx) {
 		if !changed {
 			break
 		}
+	}
+	for b, st := range in {
+		in[b] = proj(st)
 	}
 	n := 0
 	allInstrs(mainImpl, func(ins ssa.Instruction) {
